@@ -81,9 +81,11 @@ fn epcfg_strategy() -> impl Strategy<Value = EpCfg> {
         prop_oneof![3 => Just(2_000_000u32), 2 => 2_000u32..200_000, 1 => Just(u32::MAX)],
         prop_oneof![3 => Just(2_000_000u32), 2 => 2_000u32..200_000, 1 => Just(u32::MAX)],
         prop_oneof![3 => Just(100_000u32), 2 => 1u32..50_000, 1 => Just(1_000_000u32)],
-        prop_oneof![3 => Just(1_000_000u32), 2 => 1u32..120_000, 1 => Just(u32::MAX)],
+        prop_oneof![3 => Just(1_000_000u32), 2 => 1u32..120_000, 1 => Just(u32::MAX), 1 => Just(0u32)],
+        // configuration values of 2^32 and beyond (4 GiB, 8 GiB ... receive allocations, rates): advertised saturated
+        (prop_oneof![6 => Just(0u8), 1 => Just(1u8), 1 => Just(2u8), 1 => any::<u8>()], prop_oneof![8 => Just(0u8), 1 => Just(1u8), 1 => any::<u8>()]),
     )
-        .prop_map(|(max_send_rate, max_receive_rate, max_packet_size, max_receive_alloc)| EpCfg { max_send_rate, max_receive_rate, max_packet_size, max_receive_alloc, keepalive: true, keepalive_interval_ms: 1000, active_timeout_ms: 20000 })
+        .prop_map(|(max_send_rate, max_receive_rate, max_packet_size, max_receive_alloc, (alloc_high, rate_high))| EpCfg { max_send_rate, max_receive_rate, max_packet_size, max_receive_alloc, keepalive: true, keepalive_interval_ms: 1000, active_timeout_ms: 20000, alloc_high, rate_high })
 }
 
 fn hs_fate() -> impl Strategy<Value = Fate> {
@@ -204,7 +206,7 @@ impl Check for C07 {
     }
 
     fn rule(&self) -> String {
-        "case = World with a real Server and 1-4 (quick) real Clients whose configurations are generated independently (compatible or not), each on its own link with per-datagram fates for the handshake frames (delay up to 3 s, drop, duplicate up to 5 s apart, corrupt), starting at generated ticks (simultaneous handshakes), plus late network duplicates of handshake frames that really travelled (never counted as forgeries), clients whose frames are lost for 1-30 s after they connected while a third of the servers time silent peers out after 1.5-4.5 s, and forged handshake / disconnect frames injected at generated moments with spoofed source addresses (a client's address towards the server, the server's address towards a client) carrying random nonces, genuine nonces +-1, the genuine current nonce, or the nonce of an earlier attempt. After Connect each client runs an ordered echo stream through the server, and the server may push a burst of Reliable packets larger than the client's advertised receive allocation. Monitor oracle over wire and events: server Connect(a) only after an ACK from a carrying the nonce of the latest SYN-ACK sent to a was delivered; client Connect only after a SYN-ACK echoing its SYN nonce was delivered; at most one Connect per client and per server-side connection; the server's Connect never precedes the client's, and once a client is connected and frames are delivered promptly the server reports its Connect within three SYN-ACK repeat intervals (as long as its 22 s handshake budget and the client's timeout allow); first data frame ids equal the advertised nonces; every connection the server reports was completed with the server nonce the client accepted (a connection is never re-created behind a living client's back); refusals carry the error the documented rule demands and the client reports the same error (ServerFull only when the server's limits are below the number of clients: a client is never refused on account of its own pending entry); no Error event on a client that has connected unless it is a Timeout; echo streams arrive in order without gaps for Reliable packets; bytes per second on the wire stay within min(local max_send_rate, peer max_receive_rate); the bytes the server has outstanding towards a client (fragment-rounded, judged from the wire and the acks delivered) never exceed the max_receive_alloc that client advertised. Non-trivial = at least one handshake frame was lost, duplicated, corrupted or forged. Distinct = distinct serialised case.".into()
+        "case = World with a real Server and 1-4 (quick) real Clients whose configurations are generated independently (compatible or not; receive allocations and rates of 2^32 and beyond included, which are advertised saturated), each on its own link with per-datagram fates for the handshake frames (delay up to 3 s, drop, duplicate up to 5 s apart, corrupt), starting at generated ticks (simultaneous handshakes), plus late network duplicates of handshake frames that really travelled (never counted as forgeries), clients whose frames are lost for 1-30 s after they connected while a third of the servers time silent peers out after 1.5-4.5 s, and forged handshake / disconnect frames injected at generated moments with spoofed source addresses (a client's address towards the server, the server's address towards a client) carrying random nonces, genuine nonces +-1, the genuine current nonce, or the nonce of an earlier attempt. After Connect each client runs an ordered echo stream through the server, and the server may push a burst of Reliable packets larger than the client's advertised receive allocation. Monitor oracle over wire and events: server Connect(a) only after an ACK from a carrying the nonce of the latest SYN-ACK sent to a was delivered; client Connect only after a SYN-ACK echoing its SYN nonce was delivered; at most one Connect per client and per server-side connection; the server's Connect never precedes the client's, and once a client is connected and frames are delivered promptly the server reports its Connect within three SYN-ACK repeat intervals (as long as its 22 s handshake budget and the client's timeout allow); first data frame ids equal the advertised nonces; every connection the server reports was completed with the server nonce the client accepted (a connection is never re-created behind a living client's back); refusals carry the error the documented rule demands and the client reports the same error (ServerFull only when the server's limits are below the number of clients: a client is never refused on account of its own pending entry); no Error event on a client that has connected unless it is a Timeout; echo streams arrive in order without gaps for Reliable packets; bytes per second on the wire stay within min(local max_send_rate, peer max_receive_rate); the bytes the server has outstanding towards a client (fragment-rounded, judged from the wire and the acks delivered) never exceed the max_receive_alloc that client advertised. Non-trivial = at least one handshake frame was lost, duplicated, corrupted or forged. Distinct = distinct serialised case.".into()
     }
 
     fn assumptions(&self) -> Vec<String> {
@@ -626,7 +628,7 @@ impl Check for C07 {
             }
             // negotiated rate: average bytes per second from the client stay within min(client send, server receive)
             if connected {
-                let ceiling = (c.clients[k].cfg.max_send_rate.max(1) as f64).min(c.server.ep.max_receive_rate.max(1) as f64);
+                let ceiling = (c.clients[k].cfg.to_endpoint().max_send_rate as f64).min(c.server.ep.to_endpoint().max_receive_rate.min(u32::MAX as usize) as f64);
                 let frames: Vec<(u64, usize)> = w.wire.iter().filter(|r| r.from == a && r.bytes.first().map_or(false, |b| *b >= 10)).map(|r| (r.t_us, r.bytes.len())).collect();
                 if let (Some(first), Some(last)) = (frames.first(), frames.last()) {
                     let total: usize = frames.iter().map(|f| f.1).sum();
@@ -636,7 +638,7 @@ impl Check for C07 {
                         return CaseResult::fail("oracle:c07:negotiated_rate_not_respected", format!("client {k} put {total} bytes on the wire in {span:.3} s; min(own max_send_rate {}, server max_receive_rate {}) = {ceiling} B/s allows {allowed:.0}", c.clients[k].cfg.max_send_rate, c.server.ep.max_receive_rate));
                     }
                 }
-                let sceiling = (c.server.ep.max_send_rate.max(1) as f64).min(c.clients[k].cfg.max_receive_rate.max(1) as f64);
+                let sceiling = (c.server.ep.to_endpoint().max_send_rate as f64).min(c.clients[k].cfg.to_endpoint().max_receive_rate.min(u32::MAX as usize) as f64);
                 let frames: Vec<(u64, usize)> = w.wire.iter().filter(|r| r.to == a && r.from == w.server_addr && r.bytes.first().map_or(false, |b| *b >= 10)).map(|r| (r.t_us, r.bytes.len())).collect();
                 if let (Some(first), Some(last)) = (frames.first(), frames.last()) {
                     let total: usize = frames.iter().map(|f| f.1).sum();
